@@ -103,10 +103,10 @@ def coords(n, step_units, u, desc, off):
 
 
 def gen_case(rng, hmax=12, metric=None, small=False):
-    H = rng.choice([1, 2, 3, 4]) if (small or rng.random() < 0.35) else rng.randrange(1, hmax + 1)
-    W = rng.choice([1, 2, 3, 4]) if (small or rng.random() < 0.35) else rng.randrange(1, hmax + 1)
+    H = rng.choice([1, 2, 3, 4]) if (small or rng.random() < 0.15) else rng.randrange(2, hmax + 1)
+    W = rng.choice([1, 2, 3, 4]) if (small or rng.random() < 0.15) else rng.randrange(2, hmax + 1)
     n = H * W
-    dens = rng.choice([0.01, 0.03, 0.05, 0.1, 0.1, 0.2, 0.3, 0.3, 0.6])
+    dens = rng.choice([0.01, 0.02, 0.03, 0.05, 0.05, 0.1, 0.1, 0.2, 0.3, 0.6])
     ntg = min(n, max(0 if rng.random() < 0.06 else 1, int(round(dens * n)) + (1 if rng.random() < 0.4 else 0)))
     if rng.random() < 0.12:
         ntg = 1
@@ -468,17 +468,17 @@ def tags_of(c, stream):
 def evaluate(r, stream, cases, results, use_model=True):
     """oracle on every real result + model comparison; returns number of disagreements"""
     from common import Driver
-    reqs, idx = [], []
+    reqs, idx, fails = [], [], []
     for i, (c, res) in enumerate(zip(cases, results)):
         r.case(c, desc=c if i == 0 else None, nontrivial=True, tags=tags_of(c, stream) + [f"status:{res['status']}"])
         if res["status"] != "ok":
             if c["metric"] == "GREAT_CIRCLE" and res["status"] == "ValueError":
                 continue
-            r.fail("raises", f"{stream}: {res['status']}: {res.get('msg')}", c)
+            fails.append(("raises", f"{stream}: {res['status']}: {res.get('msg')}", c))
             continue
         bad = oracle(c, res)
         if bad:
-            r.fail(bad[0], f"[{stream}] {bad[1]}", c)
+            fails.append((bad[0], f"[{stream}] {bad[1]}", c))
             continue
         if use_model and c["metric_model"]:
             if threshold_tie(c):
@@ -486,6 +486,8 @@ def evaluate(r, stream, cases, results, use_model=True):
                 continue
             reqs.append(model_request(c))
             idx.append(i)
+    for key, what, c in sorted(fails, key=lambda f: f[2]["H"] * f[2]["W"]):
+        r.fail(key, what, c)
     replies = Driver().ask(reqs)
     nd = 0
     for i, rep in zip(idx, replies):
@@ -578,6 +580,7 @@ def run(r, scale=1):
     evaluate(r, "interp", int_cases, res[:n_int])
     evaluate(r, "interp-gc", int_gc, res[n_int:n_int + len(int_gc)], use_model=False)
     evaluate(r, "small", small, res[n_int + len(int_gc):])
+    shrink_failures(r, nproc)
     if thorough:
         r.exhaustive = ("every target layout on every grid with H,W<=3: 682 rasters on the compiled code (unit cells, "
                         "Euclidean, unbounded); x 5 cell sizes x 2 metrics x 9 max_distance values on the interpreted source")
@@ -585,6 +588,78 @@ def run(r, scale=1):
     r.assumptions += ["distances are exact squared naturals on a regular grid (float rounding of sqrt / squares is covered by "
                       "the correspondence run only)",
                       "great-circle distance enters the model as an arbitrary distance table (Metric.other)"]
+
+
+def sub_case(c, rows, cols, clear=None):
+    """restriction of a case to the given rows / columns, optionally with one cell made a non-target"""
+    vals = [[c["vals"][i][j] for j in cols] for i in rows]
+    d = dict(c, H=len(rows), W=len(cols), vals=vals, xs=[c["xs"][j] for j in cols], ys=[c["ys"][i] for i in rows])
+    if clear is not None:
+        i, j = clear
+        d["vals"] = [list(row) for row in vals]
+        d["vals"][i][j] = "0" if not c["tv"] else "nan"
+    return d
+
+
+def fails_with(c, key, jit):
+    x = run_real([c], jit=jit, nproc=1)[0]
+    if x["status"] != "ok":
+        return ("raises", x["status"]) if key == "raises" else None
+    bad = oracle(c, x)
+    return bad if bad and bad[0] == key else None
+
+
+def shrink(c, key, nproc):
+    """greedy: drop a boundary row / column or clear a target while the same oracle still fails (interpreted source)"""
+    for _ in range(24):
+        H, W = c["H"], c["W"]
+        cands = []
+        if H > 1:
+            cands += [sub_case(c, list(range(1, H)), list(range(W))), sub_case(c, list(range(H - 1)), list(range(W)))]
+        if W > 1:
+            cands += [sub_case(c, list(range(H)), list(range(1, W))), sub_case(c, list(range(H)), list(range(W - 1)))]
+        if c["dtype"].startswith("float") or not c["tv"]:
+            for i in range(H):
+                for j in range(W):
+                    if c["vals"][i][j] not in ("0", "nan"):
+                        cands.append(sub_case(c, list(range(H)), list(range(W)), clear=(i, j)))
+        cands = cands[:60]
+        if not cands:
+            break
+        res = run_real(cands, jit=False, nproc=nproc)
+        nxt = None
+        for cand, x in zip(cands, res):
+            if x["status"] == "ok":
+                bad = oracle(cand, x)
+                if bad and bad[0] == key:
+                    nxt = cand
+                    break
+        if nxt is None:
+            break
+        c = nxt
+    return c
+
+
+def shrink_failures(r, nproc):
+    """replace the first failing case of every oracle key by a minimised one that still fails on the compiled code"""
+    seen = set()
+    for f in r.failures:
+        if f["key"] in seen or f["key"] == "raises" or not isinstance(f["case"], dict) or "vals" not in f["case"]:
+            continue
+        seen.add(f["key"])
+        try:
+            small = shrink(f["case"], f["key"], nproc)
+            bad = fails_with(small, f["key"], jit=True)
+            if bad:
+                f["case"], f["what"] = small, f"[minimised, compiled code] {bad[1]}"
+            else:
+                bad0 = fails_with(f["case"], f["key"], jit=True)
+                if bad0:
+                    f["what"] = f"[compiled code] {bad0[1]}"
+        except Exception as ex:  # noqa  -- minimisation is best effort
+            r.notes.append("shrink failed: " + repr(ex))
+        if len(seen) >= 3:
+            break
 
 
 def search(r):
@@ -624,6 +699,7 @@ def search(r):
             r.fail(b2[0], f"[search, compiled code] {b2[1]}", c)
         else:
             r.fail(bad[0], f"[search, interpreted source only] {bad[1]}", c)
+        shrink_failures(r, nproc)
 
 
 def replay(r, body):
